@@ -31,6 +31,23 @@ pub fn corpus() -> Vec<(&'static str, IncCfg, Vec<Op>)> {
         Op::OpenFlow { sender: 1, funds: vec![(0, 7000)], allow: vec![], start: None, end: None, asset: 0, amount: 2000, label: None },
         Op::CloseFlow { sender: 1, ident: Ident::Id(1) },
     ]));
+    // a flow claimed to the last unit (one staker holds 100 % in every epoch and claims after the flow's last epoch), then closed by its
+    // creator: for a native reward the zero refund is refused by the bank (the close fails, nothing changes); for a cw20 reward the close
+    // succeeds - and then the flow is gone
+    for (lp, asset) in [(10i64, 1i64), (3, 11), (10, 0)] {
+        let c = cfg_base(lp, if asset == 0 { 1 } else { 0 });
+        // the staker's weight counts from the epoch after the position is opened: position first, flow one epoch later
+        let mut ops: Vec<Op> = vec![
+            if lp == 10 { Op::OpenPosition { sender: 2, funds: vec![], allow: vec![(10, 5_000)], amount: 5_000, dur: 86_400, receiver: None } }
+            else { Op::OpenPosition { sender: 2, funds: vec![(3, 5_000)], allow: vec![], amount: 5_000, dur: 86_400, receiver: None } },
+            Op::NewEpoch, Op::Snapshot,
+            honest(&c, 1, asset, 900_000, None, Some(6)),
+        ];
+        for _ in 0..6 { ops.push(Op::NewEpoch); ops.push(Op::Snapshot); }
+        ops.extend(vec![Op::Claim { sender: 2 }, Op::Claim { sender: 2 }, Op::CloseFlow { sender: 1, ident: Ident::Id(1) }, Op::CloseFlow { sender: 1, ident: Ident::Id(1) },
+                        honest(&c, 3, asset, 50_000, None, None)]);
+        v.push(("fully_claimed_flow_closed", c.clone(), ops));
+    }
     // a single claim spanning more than EPOCH_CLAIM_CAP (100) epochs: the capped claim must still book what it pays, the rest is
     // claimed by the next call, and closing refunds exactly funded - claimed
     let c = cfg_base(10, 0);
